@@ -50,7 +50,8 @@ fn run_case(_kind: &str, idx: u64, rng: &mut Rng, mon: &mut Mon, _tier: Tier) {
     // joint decides the verdict in many cases (index mix-ups become visible)
     let focus = rng.usize(7); // 6 = all joints random
     for j in 0..6 {
-        let cls = rng.usize(8);
+        // (tiny arcs only on the deciding joint: elsewhere they would make the whole vector inconclusive)
+        let cls = if focus < 6 && j != focus { rng.usize(8) } else { rng.usize(9) };
         let (f, t) = crate::gen::limit_pair(rng, cls, rng.clone().range(-PI, PI));
         from[j] = f;
         to[j] = t;
@@ -71,14 +72,22 @@ fn run_case(_kind: &str, idx: u64, rng: &mut Rng, mon: &mut Mon, _tier: Tier) {
             crate::gen::via_update_range(rng, from, to, w)
         }
         _ => {
-            // from_degrees: feed degrees and use the radians it computes as the reference limits
-            let r: [std::ops::RangeInclusive<f64>; 6] = std::array::from_fn(|j| from[j].to_degrees()..=to[j].to_degrees());
+            // from_degrees: feed degrees; the reference limits are those degrees converted by the monitor
+            // itself in f64 (not what the library stored)
+            let (fd, td): ([f64; 6], [f64; 6]) = (std::array::from_fn(|j| from[j].to_degrees()), std::array::from_fn(|j| to[j].to_degrees()));
+            let r: [std::ops::RangeInclusive<f64>; 6] = std::array::from_fn(|j| fd[j]..=td[j]);
             let c = Constraints::from_degrees(r, w);
-            from = c.from;
-            to = c.to;
+            from = std::array::from_fn(|j| fd[j].to_radians());
+            to = std::array::from_fn(|j| td[j].to_radians());
             c
         }
     };
+    // a quarter of the deciding angles sits right next to an arc end (2e-9 .. 1e-6 rad inside or outside)
+    if focus < 6 && from[focus] != to[focus] && rng.bool(0.25) {
+        let end = if rng.bool(0.5) { from[focus] } else { to[focus] };
+        ang[focus] = end + rng.sign() * rng.logu(2e-9, 1e-6) + 2.0 * PI * rng.int(-1, 1) as f64;
+        mon.count("angles_next_to_an_arc_end");
+    }
     let detail = |what: &str, extra: Value| json!({"from": jf(&from), "to": jf(&to), "angles": jf(&ang), "clause": what, "extra": extra});
     let (exp, conclusive) = expected_and(&from, &to, &ang);
     if !conclusive {
@@ -127,7 +136,10 @@ fn run_case(_kind: &str, idx: u64, rng: &mut Rng, mon: &mut Mon, _tier: Tier) {
         }
         let f2: [f64; 6] = std::array::from_fn(|j| from[j] + sh);
         let t2: [f64; 6] = std::array::from_fn(|j| to[j] + sh);
-        if expected_and(&f2, &t2, &ang).1 {
+        // (an arc narrower than a microradian does not survive the rounding of the shift itself: the shifted
+        // limits may coincide or describe an arc of another width)
+        let shift_keeps_arcs = (0..6).all(|j| from[j] == to[j] || (to[j] - from[j]).abs() >= 1e-6);
+        if shift_keeps_arcs && expected_and(&f2, &t2, &ang).1 {
             let c2 = Constraints::new(f2, t2, w);
             if c2.compliant(&ang) != exp {
                 mon.violation("turn-invariance:limits", "verdict changes when whole turns are added to both limits", detail("turn-limits", json!({"k": k, "expected": exp})));
